@@ -409,6 +409,50 @@ func factsC11(r *Repo) []Fact {
 				all = false
 			}
 		}
+		// cpSavesOwnStateOnly: the same `if` also requires that the graph declares state
+		// (`r.runCtx != nil`); without it a nested graph WITHOUT state saves the enclosing graph's state
+		// (found through the context chain) into its own checkpoint and is resumed with a private copy
+		if missing == "" {
+			ownOnly := true
+			for _, n := range names {
+				fd, _ := cp.Func("runner", n)
+				guarded := false
+				var stack []ast.Node
+				ast.Inspect(fd.Body, func(x ast.Node) bool {
+					if x == nil {
+						stack = stack[:len(stack)-1]
+						return true
+					}
+					stack = append(stack, x)
+					ifs, isIf := x.(*ast.IfStmt)
+					if !isIf || ifs.Init == nil {
+						return true
+					}
+					as, isAs := ifs.Init.(*ast.AssignStmt)
+					if !isAs || len(as.Rhs) != 1 {
+						return true
+					}
+					ta, isTa := as.Rhs[0].(*ast.TypeAssertExpr)
+					if !isTa || ta.Type == nil || exprString(ta.Type) != "*internalState" || !c11HasStateKey(ta.X) {
+						return true
+					}
+					if strings.Contains(exprString(ifs.Cond), "r.runCtx!=nil") {
+						guarded = true
+					}
+					for _, anc := range stack[:len(stack)-1] {
+						if a, ok := anc.(*ast.IfStmt); ok && strings.Contains(exprString(a.Cond), "r.runCtx!=nil") {
+							guarded = true
+						}
+					}
+					return true
+				})
+				if !guarded {
+					ownOnly = false
+				}
+			}
+			out = append(out, boolFact("cpSavesOwnStateOnly", ownOnly,
+				"compose/graph_run.go: handleInterrupt / handleInterruptWithSubGraphAndRerunNodes copy the state into the checkpoint only for a graph that declares state (`&& r.runCtx != nil`) — false = a nested graph without state saves the enclosing graph's state and is resumed with a private copy of it"))
+		}
 		if missing != "" {
 			out = append(out, unknownFact("cpSavesState", "Bool", "false", "compose/graph_run.go", "func "+missing+" not found"))
 		} else {
